@@ -1,5 +1,6 @@
 import MorfuseModel.Sched.TimerLemmas
 import MorfuseModel.Sched.Machine
+import MorfuseModel.Sched.MachineHostProps
 /-!
 # C06 — timed waits: never early, earliest first, exactly once
 
@@ -178,5 +179,114 @@ def demoOps : List TOp :=
 
 example : ((TRun.run {} demoOps).returned.reverse.map (fun x => (x.1.1, x.2))) = [(2, 300), (3, 300), (1, 600)] := by
   decide
+
+/-! ## Machine level: the same clauses for the whole scheduler machine, in every reachable state
+
+`Reachable s` (`Sched/MachineHost.lean`): `s` is produced from the initial state by any list of host
+operations of the driver — compile/recompile a program of class `ProgOK`, host call with arguments,
+`advance`, `execute`, `step`, `reset-director`, `reset`, reading the output — **without `save`/`load`**
+(not covered, see `MachineHost.lean`).  All statements are modulo running out of fuel (the machine's
+functions take fuel; the driver reports an exhausted run as `FUEL` and the correspondence treats it as a
+failure of the run, never as agreement).  They rest on `iAll` (the invariant through every function of
+the mutual block, re-entrant cascades included) and `hrAll` (clocks / `m_time` / dirty flag). -/
+
+/-- **Exactly once per wait, machine level.**  In every reachable state every thread in state `timing`
+    is in the timer exactly once, no thread is in it twice, and every timer element is a live thread
+    (record present, not dead, VM present) in state `timing`. -/
+theorem C06_machine_timer_exact {s : State} (h : Reachable s) :
+    s.outOfFuel = true ∨
+      ((∀ t th, s.th? t = some th → th.ts = .timing → (s.timer.elems.map (·.1)).count t = 1) ∧
+       (s.timer.elems.map (·.1)).Nodup ∧
+       (∀ e ∈ s.timer.elems, ∃ th, s.th? e.1 = some th ∧ th.ts = .timing ∧ th.hasVM = true ∧ th.dead = false)) :=
+  (reachable_hinv h).map (fun hi =>
+    ⟨fun _ _ hf hts => hi.inv.timing_once hf hts, hi.inv.tim.t2, fun _ he => hi.inv.timer_elem_live he⟩)
+
+/-- **By the end of the first due frame, machine level.**  After a host `Execute()` that did not run
+    out of fuel the timer's time is the frame's clock and no element of the timer is due: every thread
+    whose due time had been reached was taken out and resumed inside this call — through all nested
+    executions, host events and cascades of the frame. -/
+theorem C06_machine_none_due_after_execute {s : State} (h : Reachable s)
+    (ho : (hostExecute s).outOfFuel = false) :
+    (hostExecute s).timer.mtime = s.clock ∧ ∀ e ∈ (hostExecute s).timer.elems, s.clock < e.2 := by
+  have hs : s.outOfFuel = false := by
+    cases hs : s.outOfFuel with
+    | false => rfl
+    | true =>
+      have := HostOp.apply_oof (s := s) .execute (by intro e; cases e) hs
+      rw [show HostOp.apply s .execute = hostExecute s from rfl, ho] at this; cases this
+  exact hostExecute_none_due ((reachable_hinv h).get hs) ho
+
+/-- **A host call drains due timers too, machine level.**  `ScriptExecuteInternal` ends with
+    `ExecuteRunning`; for a top-level host call (label found, fuel not exhausted) no timer element is due
+    when `ExecuteThread` returns — in particular a `wait 0` is resumed inside the same host call. -/
+theorem C06_machine_none_due_after_call {s : State} (h : Reachable s) (label : Nat) (args : List V)
+    (hl : label < s.prog.length) (ho : (hostCall s label args).1.outOfFuel = false) :
+    ∀ e ∈ (hostCall s label args).1.timer.elems, (hostCall s label args).1.timer.mtime < e.2 := by
+  have hs : s.outOfFuel = false := by
+    cases hs : s.outOfFuel with
+    | false => rfl
+    | true => rw [(hostCall_hr s label args).oof hs] at ho; cases ho
+  exact hostCall_none_due ((reachable_hinv h).get hs) label args hl ho
+
+/-- **The clock discipline**, in every reachable state: `scaledTime`, the timer's `m_time` and the clock
+    of the last frame coincide (time scale 1, clock moved only between `Execute` calls) — so a due time
+    `scaledTime + d` stored by `wait d` is "frame clock at the wait + d" and is compared with the frame
+    clock. -/
+theorem C06_machine_clock_discipline {s : State} (h : Reachable s) :
+    s.outOfFuel = true ∨ (s.scaled = s.lastClock ∧ s.timer.mtime = s.lastClock ∧ s.lastClock ≤ s.clock) :=
+  (reachable_hinv h).map (fun hi => ⟨hi.ck2, hi.ck3, hi.ck1⟩)
+
+/-- No function of the machine moves `scaledTime`, the clock or `m_time` (only the host's `Execute`
+    does): the three agree throughout a host call / a frame, whatever runs nested inside. -/
+theorem C06_machine_clocks_fixed (fuel : Nat) (s : State) (t : Nat) :
+    let s' := scriptExecuteInternal fuel s t
+    s'.scaled = s.scaled ∧ s'.clock = s.clock ∧ s'.timer.mtime = s.timer.mtime := by
+  have hr := (hrAll fuel).sei s t
+  have hc := hr.ht.c3
+  simp only [Prod.mk.injEq] at hc
+  exact ⟨hc.2.1, hc.1, hr.ht.mtime⟩
+
+/-- **Never early, machine level** (three facts that compose):
+    (1) `wait ms` executed by `t` leaves exactly one new timer element, `(t, scaledTime + ms)`;
+    (2) the timer loop resumes a thread only if it is a timer element whose due time is `≤ m_time`, and it
+        is the earliest such element;
+    (3) when nothing is due the loop stops.
+    With `C06_machine_clock_discipline` / `C06_machine_clocks_fixed`: resumed only in a frame whose clock
+    is `≥` (frame clock at the wait) `+ ms`. -/
+theorem C06_machine_never_early (fuel : Nat) (s : State) :
+    (∀ t th ms, (exec (fuel + 1) s t th (.wait ms)).timer.elems =
+        (stop fuel s t).timer.elems ++ [(t, s.scaled + ms)]) ∧
+    (∀ t d tm, s.timer.next = (some (t, d), tm) →
+        (t, d) ∈ s.timer.elems ∧ d ≤ s.timer.mtime ∧ (∀ e ∈ s.timer.elems, e.2 ≤ s.timer.mtime → d ≤ e.2) ∧
+        drain (fuel + 1) s = drain fuel (execVM fuel (({ s with timer := tm, cur := some t } : State).setTh t
+          (fun th => { th with ts := .running })) t)) ∧
+    (∀ tm, s.timer.next = (none, tm) →
+        (∀ e ∈ s.timer.elems, s.timer.mtime < e.2) ∧ drain (fuel + 1) s = { s with timer := tm, cur := none }) :=
+  ⟨fun t th ms => exec_wait_timer fuel s t th ms, fun t d tm hn => drain_resumes_due fuel s t d tm hn,
+    fun tm hn => drain_stops fuel s tm hn⟩
+
+/-! ### non-vacuity, machine level: two threads, one waits 5 ms, the other waits on `level` (object 50) -/
+
+def demoHost : List HostOp :=
+  [.script [[.thread 1, .wait 5, .mark 1], [.waittill 50 [7], .mark 2]] [0, 0], .call 0 [], .takeOut]
+
+theorem demoHost_reachable : Reachable (runOps {} demoHost) :=
+  (reachable_iff _).2 ⟨demoHost, by decide, rfl⟩
+
+example : (runOps {} demoHost).outOfFuel = false ∧ (runOps {} demoHost).timer.elems = [(100, 5)] ∧
+    ((runOps {} demoHost).th? 100).map (·.ts) = some .timing := by decide +kernel
+
+/-- the frame at clock 5 resumes the timed thread (marker 1) and leaves the timer empty -/
+example : (hostExecute (runOps {} (demoHost ++ [.advance 5]))).outOfFuel = false ∧
+    (hostExecute (runOps {} (demoHost ++ [.advance 5]))).out = ["m1"] ∧
+    (hostExecute (runOps {} (demoHost ++ [.advance 5]))).timer.elems = [] := by decide +kernel
+
+/-- a frame at clock 4 is too early: nothing runs, the element stays, and it is not due -/
+example : (hostExecute (runOps {} (demoHost ++ [.advance 4]))).out = [] ∧
+    (hostExecute (runOps {} (demoHost ++ [.advance 4]))).timer.elems = [(100, 5)] := by decide +kernel
+
+/-- `wait 0` resumes inside the same host call: marker 2 is printed by the call, the timer is empty after it -/
+example : (runOps {} [.script [[.mark 1, .wait 0, .mark 2]] [0], .call 0 []]).out = ["m2", "m1"] ∧
+    (runOps {} [.script [[.mark 1, .wait 0, .mark 2]] [0], .call 0 []]).timer.elems = [] := by decide +kernel
 
 end Morfuse.Sched
